@@ -1003,7 +1003,109 @@ fn reenter_cases(seeds: u64, base: u64) -> Vec<ReenterCase> {
     v
 }
 
+// -------------------------------------------------------------------------------------------
+// (e) `trap` with several conditions in one command: every condition that can be set gets the
+// action, wherever a condition that cannot (KILL, STOP) stands among them
+
+#[derive(Clone, Debug, PartialEq, Eq, Hash, Serialize, Deserialize)]
+pub struct TrapOpsCase {
+    /// per command: action (0 default `-`, 1 ignore `''`, 2.. a command), `--` before the action,
+    /// conditions as indices into TO_CONDS
+    pub cmds: Vec<(u8, bool, Vec<u8>)>,
+}
+
+/// (spelling, key in the snapshot's trap table, name in the process' disposition list)
+const TO_CONDS: [(&str, &str, &str); 9] = [
+    ("USR1", "Signal(Number(124))", "USR1"),
+    ("USR2", "Signal(Number(125))", "USR2"),
+    ("TERM", "Signal(Number(15))", "TERM"),
+    ("HUP", "Signal(Number(1))", "HUP"),
+    ("EXIT", "Exit", ""),
+    ("0", "Exit", ""),
+    ("QUIT", "Signal(Number(3))", "QUIT"),
+    ("KILL", "", ""),
+    ("STOP", "", ""),
+];
+
+fn check_trap_ops(c: &TrapOpsCase) -> Outcome {
+    use std::collections::BTreeMap;
+    let mut script = String::new();
+    let mut model: BTreeMap<&str, String> = BTreeMap::new(); // snapshot key -> action text ("-" default)
+    let mut disp: BTreeMap<&str, &str> = BTreeMap::new();
+    let mut expect: Vec<(BTreeMap<&str, String>, BTreeMap<&str, &str>, bool)> = vec![];
+    let mut mixed = false;
+    for (k, (act, dd, conds)) in c.cmds.iter().enumerate() {
+        let has_bad = conds.iter().any(|i| TO_CONDS[*i as usize % 9].1.is_empty());
+        // KILL / STOP only together with an action that tries to catch or ignore them
+        let act = if has_bad && *act % 4 == 0 { 2 } else { *act % 4 };
+        let text = match act {
+            0 => "-".to_string(),
+            1 => "''".to_string(),
+            n => format!("'mark A{k}{n}'"),
+        };
+        let names: Vec<&str> = conds.iter().map(|i| TO_CONDS[*i as usize % 9].0).collect();
+        // through `command`: an error of the special built-in must not end the shell here
+        script.push_str(&format!("command trap {}{text} {}\nsnap S{k}\n", if *dd { "-- " } else { "" }, names.join(" ")));
+        let mut any_good_after_bad = false;
+        let mut seen_bad = false;
+        for i in conds {
+            let (_, key, dname) = TO_CONDS[*i as usize % 9];
+            if key.is_empty() {
+                seen_bad = true;
+                continue;
+            }
+            any_good_after_bad |= seen_bad;
+            let val = match act {
+                0 => "-".to_string(),
+                1 => String::new(),
+                n => format!("mark A{k}{n}"),
+            };
+            model.insert(key, val);
+            if !dname.is_empty() {
+                disp.insert(dname, match act { 0 => "Default", 1 => "Ignore", _ => "Catch" });
+            }
+        }
+        mixed |= any_good_after_bad;
+        expect.push((model.clone(), disp.clone(), has_bad));
+    }
+    // keep the EXIT action (if any) from adding a trace entry that matters: only snapshots are read
+    let r = vsys::run(&vsys::Setup::script(&script));
+    let ctx = |m: String| format!("{m}\nscript:\n{script}stderr: {:?}", r.stderr);
+    if let Some(p) = &r.panic {
+        return Outcome::fail(ctx(format!("panic: {p}")));
+    }
+    for (k, (m, d, bad)) in expect.iter().enumerate() {
+        let tag = format!("S{k}");
+        let Some(sn) = r.snaps.iter().find(|s| s.tag == tag) else {
+            return Outcome::fail(ctx(format!("the shell did not reach the command after `command trap` number {k} (an error of a special built-in run through `command` must not end the shell)")));
+        };
+        if *bad != (sn.status != 0) {
+            return Outcome::fail(ctx(format!("command {k}: exit status {} although the operands {} KILL / STOP", sn.status, if *bad { "include" } else { "do not include" })));
+        }
+        let got: BTreeMap<&str, &str> = sn.traps.iter().filter(|(_, v)| v.as_str() != "-").map(|(k, v)| (k.as_str(), v.as_str())).collect();
+        let want: BTreeMap<&str, &str> = m.iter().filter(|(_, v)| v.as_str() != "-").map(|(k, v)| (*k, v.as_str())).collect();
+        if got != want {
+            return Outcome::fail(ctx(format!("after command {k} the traps are {got:?}, expected {want:?} (every condition that can be trapped gets the action, whatever else is named in the same command)")));
+        }
+        if let Some((_, p)) = r.proc_snaps.iter().find(|(t, p)| *t == tag && p.pid == sn.pid) {
+            for (name, w) in d {
+                let g = p.dispositions.iter().find(|x| x.0 == *name).map(|x| x.1.as_str()).unwrap_or("");
+                if g != *w {
+                    return Outcome::fail(ctx(format!("after command {k} the disposition installed for {name} is {g}, the traps imply {w}")));
+                }
+            }
+        }
+    }
+    Outcome::pass(c.cmds.iter().any(|x| x.2.len() >= 2)).class_if(mixed, "settable-condition-after-KILL-or-STOP").class_if(expect.iter().any(|e| e.2), "command-with-KILL-or-STOP")
+}
+
+pub static TRAPOPS: Driver<TrapOpsCase> = Driver::new("C11", "trap-operands", check_trap_ops);
+
 pub fn run(ctx: &Ctx, st: &mut Stats) {
+    // (e) several conditions in one trap command
+    TRAPOPS.run_random(ctx, st, ctx.tier.pick(8_000, 300_000), || {
+        prop::collection::vec((0u8..4, prop::bool::weighted(0.3), prop::collection::vec(0u8..9, 1..5)), 1..4).prop_map(|cmds| TrapOpsCase { cmds })
+    });
     // (d) re-entrance
     REENTER.run_list_par(ctx, st, reenter_cases(ctx.tier.pick(4, 60), ctx.seed));
     // (a) exhaustive histories
@@ -1080,6 +1182,7 @@ pub fn replay(driver: &str, case: &serde_json::Value) -> Result<(Outcome, Option
         "delivery" => DELIVER.replay_known(case),
         "chain" => CHAIN.replay_known(case),
         "reenter" => REENTER.replay_known(case),
+        "trap-operands" => TRAPOPS.replay_known(case),
         _ => Err(format!("unknown driver {driver}")),
     }
 }
